@@ -20,6 +20,12 @@ RULE = ("operations: write (every length class 0..520 step 4, 2^10..2^20, unalig
         "composition of short streams and random / one-byte-at-a-time splits of long ones through the real "
         "exact-count reader, every prefix truncation of valid streams, malformed announcements, and streams "
         "of messages / signed error-code frames over a real loopback TCP connection through transport.ReadMsg; "
+        "streams of several short frames (1..64 bytes, 4-byte error codes) interleaved with long and empty ones, every "
+        "read path holding the slices ReadMsg returned untouched until the end of the stream; the repository's TCP "
+        "connection with a short read timeout (c08.dl): reads, idle time longer than the timeout with and without a "
+        "read pending, then writes of several lengths, writes still blocked past the timeout behind a late-draining "
+        "peer, and the mirror image (writes, idle/blocked writes, then reads) — each side must receive exactly the "
+        "frames the other wrote; "
         "distinct = distinct operation lines; each is compared with the Lean model and judged by the "
         "independent spec framer")
 
@@ -28,6 +34,8 @@ def run(ctx):
     ctx.assumptions += [
         "tcpConn.Read is an exact-count read (go-dry CancelableReader + io.ReadFull): observed over loopback, not proved",
         "the kernel's actual TCP segmentation is not controlled; segmentation is controlled on the in-memory exact-count reader",
+        "c08.dl: timing is not modelled (the driver answers what the model says about the two streams of frames); whether the "
+        "slow-writer variants really block depends on the machine's socket buffer limits (counted in the distribution's extra)",
     ]
     return vlib.generic_check(ctx, SUB, MODULES, THEOREMS, RULE)
 
